@@ -9,6 +9,16 @@ The real side is `rattr.__main__.main` run in-process with the pre-filter tap (a
 the CLI).  The property oracle on the real side (stdout / exit / buckets identical across the
 settings) is applied as well.
 
+Every output mode and three spellings of the target (round 3): the project lives five components below a
+fake $HOME; the target is given as in the case (`target.py`, `lp/mod_t.py`, …), by its absolute path
+(below $HOME, inside the project root, more than five parts) or through `..` (`../proj/<target>`); besides
+`-o results` under the eight settings, `-o ir` and `-o cacheable` run under the four -H / -T combinations
+and `-o stats` / `-o silent` under plain and -H -T. The model (`MainRun.mainOut`, op `c16_out`) gets the
+target AS SPELLED and must predict every document: for `-o ir` the "filename", the context's file, the
+symbols with their files and the (empty) "import_irs"; for `-o cacheable` the "filepath" and the results
+document; for `-o stats` the badness rows and the threshold (theorems C16_out_indep / C16_out_paths /
+C16_out_filename / C16_out_filepath).
+
 Cases come from the pipeline stage's generator (props/pipeline.py, props/filegen.py) plus curated
 modules with a diagnostic of every level; a case on which the PIPELINE model itself disagrees with
 the implementation (C03 / C14's subject) is not used here (counted).
@@ -44,14 +54,112 @@ HT = [(False, False), (True, True)]
 SETTINGS = [dict(warn=w, H=h, T=t) for w in dc.WARN for h, t in HT]
 
 
+HT4 = [(False, False), (False, True), (True, False), (True, True)]
+SPELLINGS = ("as-is", "absolute", "updir")
+DEPTH = ("w1", "w2", "w3", "proj")          # the project directory, below the fake $HOME
+
+
+def mode_jobs(a, k):
+    """[(cfg, mode)] of one (case, analysis cfg): `results` under the eight SETTINGS (as before), the
+    path-bearing documents under the four -H / -T combinations (warning level rotating with k), stats
+    and silent under plain and -H -T."""
+    jobs = [(dict(a, **s), "results") for s in SETTINGS]
+    # (every other time under the permissive setting, so that a document is printed whatever the module's badness)
+    pa = dict(strict=False, threshold=0) if k % 2 else a
+    jobs += [(dict(pa, warn=dc.WARN[k % 4], H=h, T=t), "ir") for h, t in HT4]
+    jobs += [(dict(pa, warn=dc.WARN[(k + 1) % 4], H=h, T=t), "cacheable") for h, t in HT4]
+    jobs += [(dict(a, warn=dc.WARN[(k + 2) % 4], H=h, T=t), "stats") for h, t in HT]
+    jobs += [(dict(a, warn=dc.WARN[(k + 3) % 4], H=h, T=t), "silent") for h, t in HT]
+    return jobs
+
+
 class _Proj:
-    def __init__(self, root: Path):
+    def __init__(self, root: Path, home: Path = None):
         self.cwd = self.root = root
-        self.home = root
+        self.home = root if home is None else home
 
 
-def argv_for(target_rel, cfg):
-    a = ["-o", "results", "-f", "0", "-w", cfg["warn"]]
+def make_deep_project():
+    """filelib's local package, in a project directory four components below a fake $HOME (so that an
+    absolute spelling of the target is below $HOME and has more than five parts). -> (scratch, home, project)"""
+    import tempfile
+    scratch = Path(tempfile.mkdtemp(prefix="rattr-c16main-")).resolve()
+    home = scratch / "home" / "user"
+    project = home.joinpath(*DEPTH)
+    for rel, text in filelib.LOCAL_PACKAGE.items():
+        p = project / rel
+        p.parent.mkdir(parents=True, exist_ok=True)
+        p.write_text(text)
+    return scratch, home, project
+
+
+def spelled(project: Path, target_rel: str, spelling: str) -> str:
+    if spelling == "absolute":
+        return str(project / target_rel)
+    if spelling == "updir":
+        return str(Path("..") / project.name / target_rel)
+    return target_rel
+
+
+def module_name_for(project: Path, arg: str):
+    """`derive_module_name_from_path` of the target as spelled (the real locator, as for every other fact
+    of the payload)."""
+    import impl
+    from rattr.module_locator.util import derive_module_name_from_path
+    with impl.in_dir(str(project)):
+        impl.reset_config(target=Path(arg), _excluded_names=list(pipeline.EXCLUDE), _follow_imports_level=0,
+                          _excluded_imports=list(pipeline.EXCLUDE_IMPORTS))
+        return derive_module_name_from_path(Path(arg)) or ""
+
+
+def real_printed(mode, stdout):
+    """Projection of the real stdout to the model's `Printed` JSON (None: nothing printed)."""
+    if not stdout.strip():
+        return None
+    if mode == "results":
+        return {"mode": "results", "doc": doc_of(stdout)}
+    if mode == "stats":
+        st = dc.parse_stats(stdout)
+        if st is None:
+            return "unparseable"
+        return {"mode": "stats", "buckets": [st["target"], st["import"], st["simpl"]],
+                "threshold": 0 if st["threshold"] == "\u221e" else int(st["threshold"])}
+    d = json.loads(stdout)
+    if mode == "ir":
+        t = d["target_ir"]
+        ir = t["ir"]
+        return {"mode": "ir", "filename": t["filename"], "contextFile": ir["context"]["file"],
+                "symbols": sorted([k, v["location"]["file"]] for k, v in ir["symbols"].items()),
+                "importIrs": sorted(d["import_irs"])}
+    if mode == "cacheable":
+        return {"mode": "cacheable", "filepath": d["filepath"],
+                "doc": {k: {f: sorted(v[f]) for f in ("gets", "sets", "dels", "calls")} for k, v in d["results"].items()}}
+    return "unparseable"
+
+
+def model_printed(j):
+    if j is None:
+        return None
+    j = dict(j)
+    if "doc" in j:
+        j["doc"] = model_doc(j["doc"])
+    if "symbols" in j:
+        j["symbols"] = sorted({(k, f) for k, f in j["symbols"]})
+        j["symbols"] = [list(x) for x in j["symbols"]]
+    if "importIrs" in j:
+        j["importIrs"] = sorted(j["importIrs"])
+    return j
+
+
+def comparable_stdout(mode, text):
+    if mode != "stats":
+        return text
+    st = dc.parse_stats(text)
+    return json.dumps(st, sort_keys=True) if st is not None else text
+
+
+def argv_for(target_rel, cfg, output="results"):
+    a = ["-o", output, "-f", "0", "-w", cfg["warn"]]
     for p in pipeline.EXCLUDE:
         a += ["-x", p]
     for p in pipeline.EXCLUDE_IMPORTS:
@@ -88,7 +196,8 @@ def run_main_stage(res, model, rng, n, tier, cli_sample=2, inproc=None):
     scratch = common.Result("C16")
     pipeline.run_pipeline_stage(scratch, rng, n, model, cli_sample=0, keep=keep, curated=False, extra=CURATED)
     res.count("main:pipeline-cases", len(keep))
-    projects = []
+    scratches = []
+    k = rng.randrange(12)
     try:
         for c in keep:
             if c.diff is not None or c.mo is None or "__error__" in c.mo:
@@ -109,68 +218,119 @@ def run_main_stage(res, model, rng, n, tier, cli_sample=2, inproc=None):
             if total > 0:
                 cands += [dict(strict=False, threshold=total), dict(strict=False, threshold=max(total - 1, 1))]
             picks = [rng.choice(cands)] if tier == "quick" else cands
-            project = filelib.make_project()
-            projects.append(project)
+            sc, home, project = make_deep_project()
+            scratches.append(sc)
             (project / c.target).parent.mkdir(parents=True, exist_ok=True)
             (project / c.target).write_text(c.src)
-            pr = _Proj(project)
+            pr = _Proj(project, home)
             for a in picks:
-                cfgs = [dict(a, **s) for s in SETTINGS]
-                mo = model.batch([("c16_main", {**c.payload, "cfgs": [c15mod.model_cfg(x) for x in cfgs]})])[0]
-                case = {"stage": "main", "module": c.src, "analysis_cfg": a}
+                k += 1
+                spelling = SPELLINGS[k % 3]
+                arg = spelled(project, c.target, spelling)
+                payload = c.payload
+                if spelling != "as-is":
+                    mn = module_name_for(project, arg)
+                    if mn != payload["module"]:
+                        res.count("main:module-name-depends-on-spelling")
+                        payload = {**payload, "module": mn}
+                mjobs = mode_jobs(a, k)
+                mo = model.batch([("c16_out", {**payload, "target": str(Path(arg)),
+                                               "jobs": [[c15mod.model_cfg(x), m] for x, m in mjobs]})])[0]
+                case = {"stage": "main", "module": c.src, "analysis_cfg": a, "spelling": spelling, "target": c.target}
                 if "__error__" in mo or mo.get("outcome") != "ok":
                     res.disagreements.append({"case": case, "diff": f"model: {mo}"})
                     continue
-                jobs = [(pr, argv_for(c.target, x), False) for x in cfgs]
+                jobs = [(pr, argv_for(arg, x, m), False) for x, m in mjobs]
                 ips = inproc(jobs) if inproc is not None else [dc.run_inprocess(p, a) for p, a, _ in jobs]
-                res.evaluations += len(cfgs)
+                res.evaluations += len(mjobs)
                 if any(e[0] != "info" for e in probe["events"]):
                     res.nontrivial.add(common.digest({"m": c.src, "a": a}))
                 res.count(f"main:analysis:{'strict' if a['strict'] else ('thr' if a['threshold'] else 'permissive')}")
+                res.count(f"main:spelling:{spelling}")
                 if any(ip["crash"] is not None for ip in ips):
                     res.count("main:skipped:uncaught-exception-under-some-setting")
                     res.skipped_outside_fragment += 1
                     continue
-                # ---- property oracle on the real runs
-                for what, vals in (("stdout", [ip["stdout"] for ip in ips]), ("exit-status", [ip["exit"] for ip in ips]),
-                                   ("badness", [ip["buckets"] for ip in ips])):
-                    if any(v != vals[0] for v in vals):
-                        ws = sorted({x["warn"] for x, v in zip(cfgs, vals) if v != vals[SETTINGS.index(dict(warn="all", H=False, T=False))]})
-                        res.violations.append({"signature": f"{what}-depends-on:single-file:{'-w' if len(ws) < 4 else '-H-T'}",
-                                               "case": {"program": {"single_file": c.src, "target": c.target}, "analysis_cfg": a},
-                                               "differs_at": ws})
+                # ---- property oracle on the real runs, per output mode
+                vcase = {"program": {"single_file": c.src, "target": c.target, "spelling": spelling}, "analysis_cfg": a}
+                for mode in ("results", "ir", "cacheable", "stats", "silent"):
+                    rows = [(x, ip) for (x, m), ip in zip(mjobs, ips) if m == mode]
+                    ref = rows[0][1]
+                    for what, f in (("stdout", lambda ip: comparable_stdout(mode, ip["stdout"])), ("exit-status", lambda ip: ip["exit"]),
+                                    ("badness", lambda ip: ip["buckets"])):
+                        vals = [f(ip) for _, ip in rows]
+                        if any(v != vals[0] for v in vals):
+                            ws = sorted({x["warn"] for (x, _), v in zip(rows, vals) if v != vals[0]})
+                            hts = sorted({"-H" * x["H"] + "-T" * x["T"] for (x, _), v in zip(rows, vals) if v != vals[0]} - {""})
+                            if mode == "results":
+                                which = "-w" if len(ws) < 4 else "-H-T"
+                            else:      # one warning level per mode here: only -H / -T vary
+                                which = "+".join(hts) or "-w"
+                            res.violations.append({"signature": f"{what}-depends-on:single-file:" + (which if mode == "results" else f"-o-{mode}:{which}"),
+                                                   "case": {**vcase, "output": mode}, "differs_at": ws,
+                                                   "first_lines": {f"-w {x['warn']}{' -H' if x['H'] else ''}{' -T' if x['T'] else ''}":
+                                                                   ip["stdout"][:400].splitlines()[:8] for x, ip in rows[:4]} if what == "stdout" else None})
+                    del ref
                 # ---- correspondence
-                for x, ip, m in zip(cfgs, ips, mo["runs"]):
+                for (x, mode), ip, m in zip(mjobs, ips, mo["runs"]):
                     ip_printed = [[p["level"], ip["events"][p["event"]]["where"] if p["event"] is not None else "simplification"]
                                   for p in ip["printed"] if p["level"] != "rattr"]
                     try:
-                        real_doc = doc_of(ip["stdout"])
+                        real = real_printed(mode, ip["stdout"])
                     except Exception:  # noqa
-                        real_doc = "unparseable"
-                    mm = {"exit": m["exit"], "stdout": model_doc(m["stdout"]), "buckets": m["buckets"], "printed": m["printed"]}
-                    ii = {"exit": ip["exit"], "stdout": real_doc, "buckets": ip["buckets"], "printed": ip_printed}
-                    diffs = [k for k in mm if mm[k] != ii[k]]
+                        real = "unparseable"
+                    mm = {"exit": m["exit"], "stdout": model_printed(m["stdout"]), "buckets": m["buckets"], "printed": m["printed"]}
+                    ii = {"exit": ip["exit"], "stdout": real, "buckets": ip["buckets"], "printed": ip_printed}
+                    diffs = [f for f in mm if mm[f] != ii[f]]
                     res.count("main:exit:" + str(ip["exit"]))
-                    res.count("main:stdout:" + ("document" if real_doc else "empty"))
+                    res.count(f"main:stdout:{mode}:" + ("document" if real else "empty"))
                     if diffs:
-                        res.disagreements.append({"case": case, "setting": {k: x[k] for k in ("warn", "H", "T")}, "fields": diffs,
-                                                  "impl": {k: ii[k] for k in diffs}, "model": {k: mm[k] for k in diffs}})
-                # ---- the real CLI on a sample
+                        def brief(v):
+                            return v if not isinstance(v, dict) else {f: (w if f != "doc" else "…") for f, w in v.items()}
+                        res.disagreements.append({"case": case, "output": mode, "setting": {f: x[f] for f in ("warn", "H", "T")}, "fields": diffs,
+                                                  "impl": {f: brief(ii[f]) for f in diffs}, "model": {f: brief(mm[f]) for f in diffs}})
+                # ---- the real CLI on a sample (every third job: all five output modes occur)
                 if cli_sample > 0:
                     cli_sample -= 1
-                    for x, m in list(zip(cfgs, mo["runs"]))[::3]:
-                        r = dc.run_cli(pr, argv_for(c.target, x))
+                    picked = list(zip(mjobs, mo["runs"]))[::3]
+                    for ((x, mode), m), r in zip(picked, dc.run_cli_many([(pr, argv_for(arg, x, mode)) for (x, mode), _ in picked])):
                         try:
-                            real_doc = doc_of(r["stdout"])
+                            real = real_printed(mode, r["stdout"])
                         except Exception:  # noqa
-                            real_doc = "unparseable"
+                            real = "unparseable"
                         lv = [l["level"] for l in r["lines"] if l["level"] != "rattr"]
-                        if r["exit"] != m["exit"] or real_doc != model_doc(m["stdout"]) or lv != [p[0] for p in m["printed"]] or r["junk"]:
-                            res.disagreements.append({"case": case, "setting": {k: x[k] for k in ("warn", "H", "T")}, "fields": ["cli"],
+                        if r["exit"] != m["exit"] or real != model_printed(m["stdout"]) or lv != [p[0] for p in m["printed"]] or r["junk"]:
+                            res.disagreements.append({"case": case, "output": mode, "setting": {f: x[f] for f in ("warn", "H", "T")}, "fields": ["cli"],
                                                       "impl": {"exit": r["exit"], "levels": lv, "junk": r["junk"][:3]},
                                                       "model": {"exit": m["exit"], "levels": [p[0] for p in m["printed"]]}})
     finally:
-        for p in projects:
-            filelib.drop_project(p)
+        import shutil
+        for p in scratches:
+            shutil.rmtree(p, ignore_errors=True)
     if scratch.internal_errors:
         res.internal_errors.extend(scratch.internal_errors[:3])
+
+
+def replay_case(case, base):
+    """A failing single-file case: the module at <fake home>/w1/w2/w3/proj/<target>, spelled as recorded,
+    every setting through the real CLI in the recorded output mode."""
+    prog, a = case["program"], case["analysis_cfg"]
+    home = base / "home" / "user"
+    project = home.joinpath(*DEPTH)
+    for rel, text in filelib.LOCAL_PACKAGE.items():
+        p = project / rel
+        p.parent.mkdir(parents=True, exist_ok=True)
+        p.write_text(text)
+    (project / prog["target"]).parent.mkdir(parents=True, exist_ok=True)
+    (project / prog["target"]).write_text(prog["single_file"])
+    arg = spelled(project, prog["target"], prog.get("spelling", "as-is"))
+    mode = case.get("output", "results")
+    pr = _Proj(project, home)
+    print("cwd:", project, " HOME:", home, " target argument:", arg, " output mode:", mode)
+    print("MODULE:\n" + prog["single_file"])
+    for w in dc.WARN:
+        for h, t in HT4:
+            r = dc.run_cli(pr, argv_for(arg, dict(a, warn=w, H=h, T=t), mode))
+            print(f"-w {w}{' -H' if h else ''}{' -T' if t else ''}", "exit", r["exit"], "stdout", common.digest(comparable_stdout(mode, r["stdout"])),
+                  "first lines:", r["stdout"][:200].splitlines()[:6] if mode in ("ir", "cacheable") else "")
+    return 0
